@@ -433,6 +433,10 @@ class Verifier:
                     for p in argnames[len(call_args) :]:
                         if p in params:
                             kwargs[p] = ns[p]
+                    if f.node.args.kwarg is not None:
+                        for p in params:
+                            if p not in argnames and p != "G":
+                                kwargs[p] = ns[p]  # passed through **kwargs
                     m.writes = []
                     m.entry_objs = set()
                     for v in ns.values():
